@@ -32,7 +32,8 @@ Qed.
 Lemma sstep_keeps_timeout : forall dirs o s s',
   sstep dirs o s = Some s' -> sets_timeout o = false -> ss_timeout s' = ss_timeout s.
 Proof.
-  intros dirs o s s' H Ho. destruct o as [t md | b suffix | t | b suffix | ]; cbn [sstep] in H; try discriminate.
+  intros dirs o s s' H Ho. destruct o as [t md | t n v | b suffix | t | b suffix | ]; cbn [sstep] in H; try discriminate.
+  - injection H as <-. reflexivity.
   - injection H as <-. reflexivity.
   - destruct (walk (base_dir (ss_cwd s) b) suffix) as [d|]; [|discriminate].
     destruct (existsb (path_eqb d) dirs); [|discriminate]. injection H as <-. reflexivity.
@@ -62,7 +63,7 @@ Qed.
 Lemma sstep_keeps_cwd : forall dirs o s s',
   sstep dirs o s = Some s' -> is_cd o = false -> ss_cwd s' = ss_cwd s.
 Proof.
-  intros dirs o s s' H Ho. destruct o as [t md | b suffix | t | b suffix | ]; cbn [sstep] in H; try discriminate;
+  intros dirs o s s' H Ho. destruct o as [t md | t n v | b suffix | t | b suffix | ]; cbn [sstep] in H; try discriminate;
     injection H as <-; reflexivity.
 Qed.
 
@@ -195,11 +196,20 @@ Qed.
 (** ** which set a process sees *)
 Theorem act_sees_act_set_others_nonact : forall c h pt o,
   In (pt, o) (fst (run c h)) ->
+  o_role o = RProcess ->
   exists ss, spec_before c h pt = Some ss /\
              forall n, get (o_env o) n = match pt with PtAct => ss_act ss n | PtInstr _ _ => ss_nonact ss n end.
 Proof.
-  intros c h pt o Hin. destruct (observed_refined c h pt o Hin) as (ss & Hsb & (He & _ & _)).
-  exists ss. split; [exact Hsb|]. intros n. rewrite He. destruct pt; reflexivity.
+  intros c h pt o Hin Hrole. destruct (observed_refined c h pt o Hin) as (ss & Hsb & (He & _ & _)).
+  exists ss. split; [exact Hsb|]. intros n. rewrite (He Hrole). destruct pt; reflexivity.
+Qed.
+
+Theorem value_program_timeout_cwd : forall c h pt o,
+  In (pt, o) (fst (run c h)) ->
+  exists ss, spec_before c h pt = Some ss /\ o_cwd o = ss_cwd ss /\ o_timeout o = ss_timeout ss.
+Proof.
+  intros c h pt o Hin. destruct (observed_refined c h pt o Hin) as (ss & Hsb & (_ & Hc & Ht)).
+  exists ss. split; [exact Hsb|]. split; [rewrite Hc|rewrite Ht]; destruct pt; reflexivity.
 Qed.
 
 (** ** no backward effect: what is in force at a point depends only on the instructions before it *)
@@ -222,7 +232,7 @@ Proof.
   destruct (observed_refined c h pt o Hin) as (ss & Hsb & (He & Hc & Ht)).
   destruct (observed_refined c h' pt o' Hin') as (ss' & Hsb' & (He' & Hc' & Ht')).
   rewrite (spec_before_agree c h h' pt Hag) in Hsb. rewrite Hsb in Hsb'. injection Hsb' as <-.
-  split; [|split]; [intros n; rewrite He, He'; reflexivity | congruence | congruence].
+  split; [|split]; [intros Hr Hr' n; rewrite (He Hr), (He' Hr'); reflexivity | congruence | congruence].
 Qed.
 
 (** ** the boolean predicate of the check holds on the model, for all histories *)
@@ -240,7 +250,8 @@ Proof. intros [t|]; cbn; [apply N.eqb_refl|reflexivity]. Qed.
 Lemma obs_agrees_b : forall names so o, obs_agrees so o -> obs_agreesb names so o = true.
 Proof.
   intros names so o (He & Hc & Ht). unfold obs_agreesb. rewrite Hc, Ht, path_eqb_refl, timeout_eqb_refl.
-  rewrite !andb_true_r. apply forallb_forall. intros n _. rewrite He. apply option_text_eqb_refl.
+  rewrite !andb_true_r. destruct (o_role o) eqn:Er; [|reflexivity].
+  apply forallb_forall. intros n _. rewrite (He eq_refl). apply option_text_eqb_refl.
 Qed.
 
 Theorem P_holds_on_model : forall c h, P_C11 c h (fst (run c h)) = true.
